@@ -15,6 +15,8 @@ package main
 // Lines:  tbegin case target K Alpha nbadaddr a.. nbadid i.. nbaddata d.. => ok
 //         tadd  case n ami..            => <AddNodes return> <obs>
 //         tdone case addr from|- n nodes.. n6 nodes6.. => <obs>
+//         tdonem case n (addr from|- n nodes.. n6 nodes6..)xn => <obs>   (traversal_conc.go: n completions
+//                                          released together while filter callbacks are slow)
 //         tstop case                    => <obs>
 //         tend  case                    => <n> closest elems (ip:port:id:data) in container order
 //
@@ -84,7 +86,8 @@ type tCase struct {
 	net     map[string]tResp
 	seeds   []tNI
 	extras  []tExtra
-	honest  []tNI // non-nil: the honest network N (exactness oracle applies)
+	honest  []tNI  // non-nil: the honest network N (exactness oracle applies)
+	conc    *tConc // non-nil: completions are released in overlapping groups (traversal_conc.go)
 }
 
 func (c *tCase) effK() int {
@@ -151,6 +154,8 @@ type tRun struct {
 		data string
 	}
 	stalledSeen bool
+	slow        tSlow // slow / rendezvous filter callbacks (traversal_conc.go)
+	groups      int   // overlapping groups released so far
 }
 
 func (r *tRun) oracle(prop, key, format string, a ...interface{}) {
@@ -326,6 +331,7 @@ func (r *tRun) observe() string {
 	r.printed = len(r.entries)
 	r.mu.Unlock()
 	sort.Strings(started)
+	r.checkStartedPassedFilter(started)
 
 	infl := r.inflight()
 	// stop: every in-flight ctx must get cancelled; Stopped() exactly when nothing is in flight
@@ -405,7 +411,7 @@ func (r *tRun) checkStallPredicate(snap traversal.VerifSnap) {
 }
 
 // C02 on the final closest set
-func (r *tRun) checkClosest(snap traversal.VerifSnap) {
+func (r *tRun) checkClosest(snap traversal.VerifSnap, final bool) {
 	c := r.c
 	if len(snap.Closest) > c.effK() {
 		r.oracle("C02", "closest-too-large", "len=%d k=%d", len(snap.Closest), c.effK())
@@ -451,7 +457,7 @@ func (r *tRun) checkClosest(snap traversal.VerifSnap) {
 			r.oracle("C02", "closer-responder-missing", "%s", rp.ni.tok())
 		}
 	}
-	if c.honest != nil && r.stalledSeen && !r.stopping {
+	if final && c.honest != nil && r.stalledSeen && !r.stopping {
 		// exactly the K closest nodes of the honest network
 		ns := append([]tNI(nil), c.honest...)
 		sort.Slice(ns, func(i, j int) bool { return xorDist(ns[i].id, c.target).Cmp(xorDist(ns[j].id, c.target)) < 0 })
@@ -507,7 +513,7 @@ func runCase(c *tCase, choices []int, caseID string) (options []int) {
 		K:       c.K,
 		DoQuery: r.doQuery,
 	}
-	if len(c.badAddr)+len(c.badID) > 0 {
+	if len(c.badAddr)+len(c.badID) > 0 || c.conc != nil {
 		in.NodeFilter = func(a types.AddrMaybeId) bool {
 			key := fmt.Sprintf("%s:%d", hx(a.Addr.Addr().AsSlice()), a.Addr.Port())
 			var id []byte
@@ -515,17 +521,27 @@ func runCase(c *tCase, choices []int, caseID string) (options []int) {
 				b := a.Id.Value.AsByteArray()
 				id = b[:]
 			}
+			if c.conc != nil {
+				ids := "-"
+				if id != nil {
+					ids = hx(id)
+				}
+				r.slow.point("n:" + key + ":" + ids)
+			}
 			return c.nodeFilterOK(key, id)
 		}
 	}
-	if len(c.badData) > 0 {
+	if len(c.badData) > 0 || c.conc != nil {
 		in.DataFilter = func(d any) bool {
 			s, _ := d.(string)
+			if c.conc != nil {
+				r.slow.point("d:" + s)
+			}
 			return !c.badData[s]
 		}
 	}
 	ba, bi, bd := sortedKeys(c.badAddr), sortedKeys(c.badID), sortedKeys(c.badData)
-	emit("tbegin %s %s %d %d %d %s %d %s %d %s => ok", caseID, hx(c.target), c.K, c.Alpha,
+	r.line("tbegin %s %s %d %d %d %s %d %s %d %s => ok", caseID, hx(c.target), c.K, c.Alpha,
 		len(ba), strings.Join(ba, " "), len(bi), strings.Join(bi, " "), len(bd), strings.Join(bd, " "))
 	r.op = traversal.Start(in)
 
@@ -537,14 +553,14 @@ func runCase(c *tCase, choices []int, caseID string) (options []int) {
 		r.learned = append(r.learned, ns...)
 		r.sched = append(r.sched, fmt.Sprintf("add%d", len(ns)))
 		ret := r.op.AddNodes(amis)
-		emit("tadd %s %d %s => %d %s", caseID, len(ns), tniToks(ns), ret, r.observe())
+		r.line("tadd %s %d %s => %d %s", caseID, len(ns), tniToks(ns), ret, r.observe())
 		r.flushOracles()
 	}
 	stop := func() {
 		r.sched = append(r.sched, "stop")
 		r.stopping = true
 		r.op.Stop()
-		emit("tstop %s => %s", caseID, r.observe())
+		r.line("tstop %s => %s", caseID, r.observe())
 		r.flushOracles()
 	}
 	addNodes(c.seeds)
@@ -577,6 +593,11 @@ func runCase(c *tCase, choices []int, caseID string) (options []int) {
 			idx = choices[step] % len(infl)
 		}
 		options = append(options, len(infl))
+		if grp := r.pickGroup(infl, idx, step); len(grp) >= 2 {
+			r.completeGroup(grp)
+			step++
+			continue
+		}
 		e := infl[idx]
 		resp := c.net[e.addrKey]
 		from := "-"
@@ -595,7 +616,7 @@ func runCase(c *tCase, choices []int, caseID string) (options []int) {
 		r.released++
 		r.mu.Unlock()
 		e.release <- resp
-		emit("tdone %s %s %s %d %s %d %s => %s", caseID, e.addrKey, from, len(resp.nodes), tniToks(resp.nodes),
+		r.line("tdone %s %s %s %d %s %d %s => %s", caseID, e.addrKey, from, len(resp.nodes), tniToks(resp.nodes),
 			len(resp.nodes6), tniToks(resp.nodes6), r.observe())
 		r.flushOracles()
 		step++
@@ -605,8 +626,8 @@ func runCase(c *tCase, choices []int, caseID string) (options []int) {
 	for _, e := range snap.Closest {
 		cl = append(cl, fmt.Sprintf("%s:%s:%s", e.Addr, e.Id, e.Data))
 	}
-	emit("tend %s => %d %s", caseID, len(cl), strings.Join(cl, " "))
-	r.checkClosest(snap)
+	r.line("tend %s => %d %s", caseID, len(cl), strings.Join(cl, " "))
+	r.checkClosest(snap, true)
 	// cleanup (not part of the compared trace): stop, let every query return
 	r.op.Stop()
 	for _, e := range r.inflight() {
@@ -969,13 +990,15 @@ func traversalEngine(seed uint64, tier string, args []string) {
 		only = args[0] // replay a single case family: prefix of the case id
 	}
 	want := func(id string) bool { return only == "" || strings.HasPrefix(id, only) }
-	kinds := []string{"honest", "silent", "lying", "dupid", "filtered", "datafilter", "mixed", "dupaddr"}
+	kinds := []string{"honest", "silent", "lying", "dupid", "filtered", "datafilter", "mixed", "dupaddr", "edgeid"}
 	mk := func(g *tGen, kind string, n int, kMax int) *tCase {
 		switch kind {
 		case "honest":
 			return g.honest(n, kMax)
 		case "dupaddr":
 			return g.dupAddr(n-1, 1+g.r.intn(16), kMax)
+		case "edgeid":
+			return g.edge(n, kMax)
 		default:
 			return g.messy(n, kMax, kind)
 		}
@@ -1080,5 +1103,62 @@ func traversalEngine(seed uint64, tier string, args []string) {
 			}
 		}
 	}
-	fmt.Fprintf(os.Stderr, "traversal: %d cases, %d runs\n", st.cases, st.runs)
+	// (4) overlapping completions: groups of in-flight queries released together while the filter
+	// callbacks are slow (traversal_conc.go); seeded random schedules, and every order for small graphs
+	nCases, maxN, kMax, nsched = 5, 10, 8, 3
+	if thorough {
+		nCases, maxN, kMax, nsched = 40, 30, 16, 8
+	}
+	for ki, kind := range kinds {
+		for i := 0; i < nCases; i++ {
+			id := fmt.Sprintf("c-%s-%d", kind, i)
+			if !want(id) {
+				continue
+			}
+			sub := r.sub(900000 + i*16 + ki)
+			g := &tGen{r: sub, target: sub.bytes(20)}
+			n := 3 + sub.intn(maxN-2)
+			c := makeConc(mk(g, kind, n, kMax), sub, i+ki)
+			if len(c.seeds) < 2 && kind != "dupaddr" && len(c.honest) >= 2 {
+				c.seeds = append(c.seeds, c.honest[sub.intn(len(c.honest))])
+			}
+			if sub.intn(4) == 0 {
+				late := allNodesOf(c)
+				if len(late) > 0 {
+					c.extras = append(c.extras, tExtra{pos: sub.intn(4), kind: "add", ns: late[:1+sub.intn(len(late))]})
+				}
+			}
+			if sub.intn(8) == 0 {
+				c.extras = append(c.extras, tExtra{pos: 1 + sub.intn(n), kind: "stop"})
+			}
+			st.cases++
+			for s := 0; s < nsched; s++ {
+				runCase(c, randomSchedule(sub.sub(9000+s), 200), fmt.Sprintf("%s/r%d", id, s))
+				st.runs++
+			}
+		}
+	}
+	reps, maxRuns = 1, 12
+	if thorough {
+		reps, maxRuns = 6, 200
+	}
+	for n := 2; n <= 4; n++ {
+		for ki, kind := range kinds {
+			for rep := 0; rep < reps; rep++ {
+				id := fmt.Sprintf("cx-%s-n%d-%d", kind, n, rep)
+				if !want(id) {
+					continue
+				}
+				sub := r.sub(950000 + n*1000 + rep*16 + ki)
+				g := &tGen{r: sub, target: sub.bytes(20)}
+				c := makeConc(mk(g, kind, n, 4), sub, n+rep+ki)
+				c.conc.wait = 300 * time.Microsecond
+				st.cases++
+				exploreAll(c, id, maxRuns, st)
+			}
+		}
+	}
+	emit("# traversal-conc groups=%d completions=%d armed-callbacks=%d concurrent-callbacks=%d",
+		tConcStats.groups, tConcStats.released, tConcStats.armedCalls, tConcStats.met)
+	fmt.Fprintf(os.Stderr, "traversal: %d cases, %d runs, %d overlapping groups\n", st.cases, st.runs, tConcStats.groups)
 }
